@@ -113,6 +113,25 @@ impl Hasher for TableHasher {
     }
 }
 
+impl TableHashBuilder {
+    pub fn new(table: Arc<HashMap<u64, u64>>) -> Self {
+        Self { table }
+    }
+}
+
+/// (key -> hash table, sorted key universe) of a configuration
+pub fn table_of(cfg: &MemCfg) -> Result<(Arc<HashMap<u64, u64>>, Vec<u64>), String> {
+    let mut table = HashMap::new();
+    let mut keys = vec![];
+    for (k, h) in cfg.hash.iter() {
+        let k: u64 = k.parse().map_err(|_| "bad key in hash table".to_string())?;
+        table.insert(k, *h);
+        keys.push(k);
+    }
+    keys.sort();
+    Ok((Arc::new(table), keys))
+}
+
 impl BuildHasher for TableHashBuilder {
     type Hasher = TableHasher;
     fn build_hasher(&self) -> TableHasher {
@@ -190,7 +209,7 @@ pub struct MemRunner {
     pub held: Vec<(u64, u64, usize, H)>,
 }
 
-fn eviction_config(cfg: &MemCfg) -> Result<EvictionConfig, String> {
+pub fn eviction_config(cfg: &MemCfg) -> Result<EvictionConfig, String> {
     let c = &cfg.cfg;
     Ok(match cfg.algo.as_str() {
         "fifo" => FifoConfig::default().into(),
@@ -424,15 +443,15 @@ impl MemRunner {
     }
 }
 
-/// Which components of an observation differ (names as in `Obs`).
-pub fn diff_fields(exp: &J, got: &J) -> Vec<String> {
-    let mut v = vec![];
-    for f in ["res", "ev", "pp", "u", "n", "pr", "hs"] {
-        if exp.get(f) != got.get(f) {
-            v.push(f.to_string());
-        }
+impl crate::Engine for MemRunner {
+    fn step(&mut self, op: &J) -> Result<J, String> {
+        let res = self.apply(op)?;
+        Ok(self.observe(op, res))
     }
-    v
+}
+
+pub fn nontrivial(e: &J) -> bool {
+    e["ev"].as_array().map(|a| !a.is_empty()).unwrap_or(false) || e["hs"].as_array().map(|a| !a.is_empty()).unwrap_or(false)
 }
 
 /// Parameters of the random driver (`harness mem-random`): the same alphabet as MC_MemCache's `Op`.
